@@ -404,7 +404,7 @@ class CallMixin:
         nm = dict(names)
         nm["result"] = res
         sp = Spec(old, nm, oldnames=names, mode="assume")
-        for lbl, en in c.ensures.items():
+        for lbl, en in list(c.ensures.items()) + list(c.defines_ensures.items()):
             s1.assume(self.spec_truth(s1, en, cc.with_spec(sp)))
         if o.feasible(s1):
             yield s1, res
@@ -418,7 +418,7 @@ class CallMixin:
             s2.assume(w.cls_of(eo) == ec)
             r = Raise(ec, w.V.ref(eo))
             sp2 = Spec(old, names, exc=r, mode="assume")
-            for lbl, rs in c.raises.items():
+            for lbl, rs in list(c.raises.items()) + list(c.defines_raises.items()):
                 s2.assume(self.spec_truth(s2, rs, cc.with_spec(sp2)))
             if o.feasible(s2):
                 yield s2, r
@@ -585,6 +585,11 @@ class CallMixin:
             return o.bool_(z3.Select(st.g("unreadable"), o.s(A(0))))
         if fn == "fs_writable":
             return o.bool_(z3.Not(z3.Select(st.g("unwritable"), o.s(A(0)))))
+        if fn == "fs_cell_same":
+            p = o.s(A(0))
+            return o.bool_(z3.Select(st.g("fs"), p) == z3.Select(sp.old.g("fs"), p))
+        if fn == "is_keyfile_path":
+            return o.bool_(w.fun("is_keyfile_path", "str", "bool")(o.s(A(0))))
         if fn == "fs_same":
             return o.bool_(st.g("fs") == sp.old.g("fs"))
         if fn == "fs_same_except":
@@ -600,7 +605,9 @@ class CallMixin:
             f = w.fun("rand_bytes", z3.IntSort(), z3.SeqSort(z3.BitVecSort(8)))
             return o.bytes_(f(o.i(A(0))))
         if fn == "expanduser":
-            return o.str_(w.fun("expanduser", "str", "str")(o.s(A(0))))
+            t = w.fun("expanduser", "str", "str")(o.s(A(0)))
+            st.terms.append(("str", t))
+            return o.str_(t)
         if fn == "dict_same":
             d = o.r(A(0))
             return o.bool_(z3.And([st.rd(a, d) == sp.old.rd(a, d) for a in ("$map", "$dom", "$len", "$keys", "$pos")]))
@@ -654,11 +661,11 @@ class CallMixin:
         sp = cx.spec
         var, kind = e.args[0].value.split(":")
         body = self.parse_spec(e.args[1].value)
-        sort = {"ref": z3.IntSort(), "int": z3.IntSort(), "key": w.V, "val": w.V}[kind]
+        sort = {"ref": z3.IntSort(), "int": z3.IntSort(), "key": w.V, "val": w.V, "str": z3.StringSort()}[kind]
 
         def inst(t, st=st, cx=cx):
             names = dict(sp.names)
-            names[var] = SV(w.V.ref(t), "ref:object") if kind == "ref" else (SV(w.V.int(t), "int") if kind == "int" else SV(t))
+            names[var] = SV(w.V.ref(t), "ref:object") if kind == "ref" else (SV(w.V.int(t), "int") if kind == "int" else (SV(w.V.str(t), "str") if kind == "str" else SV(t)))
             sp2 = Spec(sp.old, names, sp.oldnames, sp.exc, sp.mode)
             st2 = st.clone()
             n0 = len(st2.pc)
